@@ -4,6 +4,9 @@ import json, subprocess, sys
 
 CHECKS = {
  # id: (engine, technique, level text, level note, design ref)
+ "C09": ("E3-product-automaton", "product of the DFA determinised from the crate's regex source with the DFA of the RFC 3987 ABNF (all strings), witness replay per product edge; bounded exhaustive string and (base, reference) pair enumeration against RFC 3986 5.2",
+         "Language equality of the validator with RFC 3987 is decided for strings of every length by exploring all reachable product states; the model is bound to the code by construction (built from the crate's public regex source at run time) and by replaying a witness per product edge through every validating entry point. Base conversion, Namespace::get and resolution are checked exhaustively over all strings up to a length and all pairs of a generated IRI set.",
+         "regex-automata determinisation; ABNF transcription (cross-checked against oxiri); RFC 3986 5.2 reference (validated on the 42 examples of 5.4); bounds of the string/pair enumerations.", "DESIGN.md §4 C09"),
  "C11": ("E1-history-bfs", "explicit-state BFS over operation histories on the real stores, differential against a twin store and a reference set",
          "Every reachable state of 9 store types under direct and through-view mutations up to the stated depth is visited; in each state every view is compared with the projection of a reference quad set under all pattern shapes. Exhaustive within the bound, on the real code.",
          "Small-scope hypothesis (4 triples x 4 graph names, depth bound); rustc/std; the reference set model.", "DESIGN.md §4 C11"),
